@@ -15,6 +15,29 @@ Proof. vm_compute. discriminate. Qed.
 Lemma pays_len (ms : list staged) : length (pays_of ms) = length ms.
 Proof. apply map_length. Qed.
 
+(* the fields of a rendered superpacket header *)
+Lemma render_pays pol s : g_pays (render pol s) = s_pays s.
+Proof. reflexivity. Qed.
+Lemma render_proto pol s : g_proto (render pol s) = pol_gproto pol.
+Proof. reflexivity. Qed.
+Lemma render_v6 pol s : p_v6 (g_hdr (render pol s)) = p_v6 (s_seed s).
+Proof. reflexivity. Qed.
+Lemma render_shape pol s : p_shape (g_hdr (render pol s)) = p_shape (s_seed s).
+Proof. reflexivity. Qed.
+Lemma render_tcp_hlen pol s : tcp_hlen (g_hdr (render pol s)) = tcp_hlen (s_seed s).
+Proof. reflexivity. Qed.
+Lemma render_udp_hlen pol s : udp_hlen (g_hdr (render pol s)) = udp_hlen (s_seed s).
+Proof. reflexivity. Qed.
+Lemma render_iphl pol s : iphl (g_hdr (render pol s)) = iphl (s_seed s).
+Proof. reflexivity. Qed.
+Lemma render_iplen pol s :
+  g_iplen (render pol s) =
+  w16 (if p_v6 (s_seed s) then s_hlen s + s_total s - iphl (s_seed s) else s_hlen s + s_total s).
+Proof. reflexivity. Qed.
+Lemma render_udplen pol s :
+  g_udplen (render pol s) = if pol_gproto pol =? 2 then w16 (s_hlen s + s_total s - iphl (s_seed s)) else 0.
+Proof. reflexivity. Qed.
+
 (* ---- TCP ---- *)
 
 Theorem tcp_slot_geometry s : tcp_chain_ok s -> 2 <= s_nseg s -> geometry_okb (render tcp_pol s) = true.
@@ -22,8 +45,8 @@ Proof.
   intros Hc H2. unfold tcp_chain_ok in Hc.
   pose proof (chain_ok_first_size tcp_pol coal_tcp_max_segs pre_tcp mid_tcp fin_tcp xinv_tcp
                 tcp_max_pos tcp_mid_fin tcp_mid_size tcp_fin_size tcp_seed_ok tcp_append_ok s Hc H2) as Hfirst.
-  destruct (chain_ok_pays_geometry tcp_pol coal_tcp_max_segs pre_tcp mid_tcp fin_tcp xinv_tcp
-              tcp_max_pos tcp_mid_fin tcp_mid_size tcp_fin_size tcp_seed_ok tcp_append_ok s Hc) as (Hab & Hl1 & Hl2).
+  destruct (chain_ok_pays_geometry tcp_pol coal_tcp_max_segs mid_tcp fin_tcp xinv_tcp
+              tcp_mid_size tcp_fin_size s Hc) as (Hab & Hl1 & Hl2).
   pose proof (co_gso1 _ _ _ _ _ _ Hc) as Hg1. pose proof (co_buf _ _ _ _ _ _ Hc) as Hbuf.
   pose proof (co_segs _ _ _ _ _ _ Hc) as Hsegs. pose proof (co_hlen _ _ _ _ _ _ Hc) as Hhl.
   pose proof (co_total _ _ _ _ _ _ Hc) as Htot.
@@ -36,19 +59,13 @@ Proof.
     rewrite Em in Hch. destruct rest.
     - cbn [chain] in Hch. destruct Hch as (Hm & _). rewrite Es. apply (tm_shape _ _ _ _ Hm).
     - cbn [chain] in Hch. destruct Hch as ((Hm & _) & _). rewrite Es. apply (tm_shape _ _ _ _ Hm). }
-  unfold geometry_okb, gso_size.
-  cbn [render g_proto g_hdr g_pays g_iplen g_udplen tcp_pol pol_gproto].
+  unfold geometry_okb, gso_size. cbv zeta.
+  rewrite render_proto, render_pays, render_v6, render_tcp_hlen, render_iplen, render_udplen, render_iphl.
+  unfold is_shape. rewrite render_shape.
+  cbn [tcp_pol pol_gproto].
   change (1 =? 1) with true. change (1 =? 2) with false. cbv iota.
-  change (tcp_hlen (with_body (with_cks (with_flags (s_seed s)
-            (if s_psh s then N.lor (p_flags (s_seed s)) coal_flag_psh else p_flags (s_seed s)))
-            (if p_v6 (s_seed s) then p_ipck (s_seed s)
-             else ipv4_hdr_checksum (s_seed s)
-                    (w16 (if p_v6 (s_seed s) then s_hlen s + s_total s - iphl (s_seed s) else s_hlen s + s_total s)))
-            (fold_once_no_invert (pseudo_sum (s_seed s) coal_proto_tcp (s_hlen s + s_total s - iphl (s_seed s))))) [] []))
-    with (tcp_hlen (s_seed s)).
   rewrite <- Hhl, <- Htot, Hlen, Hfirst, Hab.
-  cbn [with_body with_cks with_flags p_v6 p_shape iphl].
-  unfold is_shape. rewrite Hsh. cbn [shape_eqb].
+  rewrite Hsh. cbn [shape_eqb].
   assert (E1 : (2 <=? s_nseg s) = true) by (apply N.leb_le; exact H2).
   assert (E2 : (s_nseg s <=? coal_tcp_max_segs) = true) by (apply N.leb_le; exact Hsegs).
   assert (E3 : (1 <=? s_gso s) = true) by (apply N.leb_le; exact Hg1).
@@ -56,8 +73,8 @@ Proof.
   assert (E5 : (N.of_nat (length (last (s_pays s) [])) <=? s_gso s) = true) by (apply N.leb_le; exact Hl2).
   assert (E6 : (s_hlen s + s_total s <=? 65535) = true) by (apply N.leb_le; lia).
   rewrite E1, E2, E3, E4, E5, E6. cbn [andb orb].
-  rewrite andb_true_r.
-  apply N.eqb_eq. destruct (p_v6 (s_seed s)); apply w16_small; lia.
+  change (0 =? 0) with true. rewrite !andb_true_r.
+  apply N.eqb_eq. unfold iphl. destruct (p_v6 (s_seed s)); apply w16_small; lia.
 Qed.
 
 (* ---- UDP ---- *)
@@ -67,8 +84,8 @@ Proof.
   intros Hc H2. unfold udp_chain_ok in Hc.
   pose proof (chain_ok_first_size udp_pol coal_udp_max_segs pre_udp mid_udp fin_udp xinv_udp
                 udp_max_pos udp_mid_fin udp_mid_size udp_fin_size udp_seed_ok udp_append_ok s Hc H2) as Hfirst.
-  destruct (chain_ok_pays_geometry udp_pol coal_udp_max_segs pre_udp mid_udp fin_udp xinv_udp
-              udp_max_pos udp_mid_fin udp_mid_size udp_fin_size udp_seed_ok udp_append_ok s Hc) as (Hab & Hl1 & Hl2).
+  destruct (chain_ok_pays_geometry udp_pol coal_udp_max_segs mid_udp fin_udp xinv_udp
+              udp_mid_size udp_fin_size s Hc) as (Hab & Hl1 & Hl2).
   pose proof (co_gso1 _ _ _ _ _ _ Hc) as Hg1. pose proof (co_buf _ _ _ _ _ _ Hc) as Hbuf.
   pose proof (co_segs _ _ _ _ _ _ Hc) as Hsegs. pose proof (co_hlen _ _ _ _ _ _ Hc) as Hhl.
   pose proof (co_total _ _ _ _ _ _ Hc) as Htot.
@@ -80,19 +97,13 @@ Proof.
     rewrite Em in Hch. destruct rest.
     - cbn [chain] in Hch. destruct Hch as (Hm & _). rewrite Es. apply (um_shape _ _ _ Hm).
     - cbn [chain] in Hch. destruct Hch as ((Hm & _) & _). rewrite Es. apply (um_shape _ _ _ Hm). }
-  unfold geometry_okb, gso_size.
-  cbn [render g_proto g_hdr g_pays g_iplen g_udplen udp_pol pol_gproto].
+  unfold geometry_okb, gso_size. cbv zeta.
+  rewrite render_proto, render_pays, render_v6, render_udp_hlen, render_iplen, render_udplen, render_iphl.
+  unfold is_shape. rewrite render_shape.
+  cbn [udp_pol pol_gproto].
   change (2 =? 1) with false. change (2 =? 2) with true. cbv iota.
-  change (udp_hlen (with_body (with_cks (with_flags (s_seed s)
-            (if s_psh s then N.lor (p_flags (s_seed s)) coal_flag_psh else p_flags (s_seed s)))
-            (if p_v6 (s_seed s) then p_ipck (s_seed s)
-             else ipv4_hdr_checksum (s_seed s)
-                    (w16 (if p_v6 (s_seed s) then s_hlen s + s_total s - iphl (s_seed s) else s_hlen s + s_total s)))
-            (fold_once_no_invert (pseudo_sum (s_seed s) coal_proto_udp (s_hlen s + s_total s - iphl (s_seed s))))) [] []))
-    with (udp_hlen (s_seed s)).
   rewrite <- Hhl, <- Htot, Hlen, Hfirst, Hab.
-  cbn [with_body with_cks with_flags p_v6 p_shape iphl].
-  unfold is_shape. rewrite Hsh. cbn [shape_eqb].
+  rewrite Hsh. cbn [shape_eqb].
   assert (E1 : (2 <=? s_nseg s) = true) by (apply N.leb_le; exact H2).
   assert (E2 : (s_nseg s <=? coal_udp_max_segs) = true) by (apply N.leb_le; exact Hsegs).
   assert (E3 : (1 <=? s_gso s) = true) by (apply N.leb_le; exact Hg1).
@@ -100,10 +111,10 @@ Proof.
   assert (E5 : (N.of_nat (length (last (s_pays s) [])) <=? s_gso s) = true) by (apply N.leb_le; exact Hl2).
   assert (E6 : (s_hlen s + s_total s <=? 65535) = true) by (apply N.leb_le; lia).
   rewrite E1, E2, E3, E4, E5, E6. cbn [andb orb].
-  rewrite andb_true_r.
+  rewrite ?andb_true_r.
   assert (Hih : iphl (s_seed s) <= s_hlen s) by (rewrite Hhl; unfold udp_hlen; lia).
   apply andb_true_intro. split; apply N.eqb_eq.
-  - destruct (p_v6 (s_seed s)) eqn:Ev; apply w16_small; unfold iphl in *; rewrite ?Ev in *; lia.
+  - unfold iphl. destruct (p_v6 (s_seed s)); apply w16_small; lia.
   - apply w16_small. lia.
 Qed.
 
